@@ -8,6 +8,7 @@ import (
 
 	"go.minekube.com/common/minecraft/component"
 
+	"go.minekube.com/gate/pkg/edition/java/profile"
 	"go.minekube.com/gate/pkg/edition/java/proto/packet/chat"
 	"go.minekube.com/gate/pkg/edition/java/proto/packet/tablist/legacytablist"
 	"go.minekube.com/gate/pkg/edition/java/proto/packet/tablist/playerinfo"
@@ -223,6 +224,19 @@ func (t *TabList) add(entry tablist.Entry) (*playerinfo.Upsert, error) {
 	t.EntriesByID[playerInfoEntry.ProfileID] = entry
 	t.Unlock()
 
+	if previousEntry != nil && !sameProfile(previousEntry.Profile(), entry.Profile()) {
+		// A client ignores ADD_PLAYER for an id it already knows and there is no action
+		// that updates a profile: the only way to show the new profile is to remove the
+		// old entry and add the new one from scratch.
+		err := t.Viewer.BufferPacket(&playerinfo.Remove{
+			PlayersToRemove: []uuid.UUID{playerInfoEntry.ProfileID},
+		})
+		if err != nil {
+			return nil, err
+		}
+		previousEntry = nil
+	}
+
 	if previousEntry != nil {
 		// we should merge entries here
 		if equalLocked(previousEntry, entry) {
@@ -301,6 +315,18 @@ func (t *TabList) add(entry tablist.Entry) (*playerinfo.Upsert, error) {
 			playerInfoEntry,
 		},
 	}, nil
+}
+
+func sameProfile(a, b profile.GameProfile) bool {
+	if a.ID != b.ID || a.Name != b.Name || len(a.Properties) != len(b.Properties) {
+		return false
+	}
+	for i := range a.Properties {
+		if a.Properties[i] != b.Properties[i] {
+			return false
+		}
+	}
+	return true
 }
 
 func (t *TabList) hasEntry(id uuid.UUID) bool {
